@@ -29,7 +29,9 @@ VARIABLES l,        \* next event
 tvars == <<l, b, g, met, owed, lost, imported, src, bad, known>>
 
 G0 == [acc |-> <<>>, removed |-> {}, gone |-> {}, clock |-> 1, headKs |-> [p \in {} |-> {}],
-       evictable |-> {}, eph |-> {}, lastApp |-> 0]
+       evictable |-> {}, eph |-> {}, lastApp |-> 0,
+       \* ids of context registrations whose import was refused (C20: a refused import leaves nothing behind)
+       refusedReg |-> {}]
 
 Init ==
   /\ l = 1 /\ b = 0 /\ g = G0 /\ met = {} /\ owed = {} /\ lost = {} /\ imported = {}
@@ -71,6 +73,9 @@ EvAppend ==
            ELSE LET v == AppendVerdict(g, E.ctx, E.topic, E.ttl, E.meta, E.hash, E.ok, E.id, FrameOf(E.f)) IN
                 \* what a front end hands to the store is what it was asked to append
                 v \cup HttpOk(E.status, E.ok, 200)
+                  \* an append accepted into a context nothing registers, whose registration was offered by a refused import:
+                  \* that import was not rejected whole
+                  \cup (IF E.ok /\ E.topic # XC /\ ~MayBeUsable(g, E.ctx) /\ E.ctx \in g.refusedReg THEN {"C20"} ELSE {})
                   \cup (IF E.via # "api" /\ E.ok /\ "C12" \in v THEN FrontFault ELSE {}))
   /\ IF ~E.ok THEN UNCHANGED <<g, owed>>
      ELSE LET f == FrameOf(E.f) IN
@@ -96,7 +101,8 @@ EvImport ==
                 /\ lost' = lost \ {<<f.ctx, f.topic>>}
                 \* whatever was owed to the collector under this id concerned the frame that was there before
                 /\ met' = IF id \in Present(g) /\ g.acc[id] = f THEN met ELSE met \ {id}
-           ELSE UNCHANGED <<g, imported, owed, lost, met>>
+           ELSE /\ g' = IF f.topic = XC /\ f.ctx = Z THEN [g EXCEPT !.refusedReg = @ \cup {id}] ELSE g
+                /\ UNCHANGED <<imported, owed, lost, met>>
   /\ UNCHANGED <<b, src, known>>
 
 EvRemove ==
@@ -165,7 +171,9 @@ EvHead ==
 EvDump ==
   /\ Is("dump")
   /\ LET S == ToSet(E.dump.stream) IN
-     /\ Judge(DumpVerdict(g, E.dump) \cup EvictionOrderVerdict(g, S, imported))
+     /\ Judge(DumpVerdict(g, E.dump) \cup EvictionOrderVerdict(g, S, imported)
+              \* (C20: a registration whose import was refused is not in the registry)
+              \cup (IF \E c \in ToSet(E.dump.contexts) \cap g.refusedReg : ~MayBeUsable(g, c) THEN {"C20"} ELSE {}))
      /\ g' = [g EXCEPT !.gone = @ \cup (Present(g) \ S)]
   /\ UNCHANGED <<b, met, owed, lost, imported, src, known>>
 
@@ -220,12 +228,15 @@ EvBad ==
 EvFollowProbe ==
   /\ Is("followprobe")
   /\ LET got == {E.res[j].id : j \in 1..Len(E.res)}
+         \* (through the command line nothing tells when the subscription exists: a frame appended early may be history,
+         \*  and history at or below the start position is not replayed)
          want == {E.appended[j].id : j \in {j \in 1..Len(E.appended) :
                       /\ E.appended[j].ctx = E.ctx
-                      /\ (E.route = "head" => E.appended[j].topic = E.topic)}}
+                      /\ (E.route = "head" => E.appended[j].topic = E.topic)
+                      /\ (E.via = "cli" => E.appended[j].id > E.last)}}
          \* with a limit (and a heartbeat): exactly the first `lim` frames of the context - history, then live -
          \* pulses are not counted, and the stream ends by itself
-         avail == Cands(g, E.ctx, NOID)
+         avail == Cands(g, E.ctx, E.last)
          \* known finding C03-future-dated-history-drops-live: the replayed history of the context holds a frame
          \* whose id lies above the ids of the frames appended meanwhile (an imported frame dated ahead of the
          \* clock); the live side drops everything at or below the last scanned id, i.e. all of them
@@ -237,15 +248,21 @@ EvFollowProbe ==
          short == E.route = "catlim" /\ Len(E.res) # (IF Cardinality(avail) < E.lim THEN Cardinality(avail) ELSE E.lim)
                      /\ avail \cap g.evictable = {}
          missing == E.route # "catlim" /\ ~(want \subseteq got)
-         \* with the whole history replayed first: everything of the context that a read returns now is there
-         histGap == E.route = "cathist" /\ ~((avail \ g.evictable) \subseteq got)
+         \* with the history (after E.last) replayed first: everything of the context that a read returns now is there;
+         \* the known finding explains the loss of frames appended while the stream was open, never of history
+         appendedIds == {E.appended[j].id : j \in 1..Len(E.appended)}
+         histGap == E.route = "cathist" /\ ~((avail \ (g.evictable \cup appendedIds)) \subseteq got)
+         liveGap == E.route = "cathist" /\ ~((avail \ g.evictable) \subseteq got)
      IN
-     /\ known' = IF (short \/ missing \/ histGap) /\ futureHist THEN known \cup {"C03-future-dated-history-drops-live"} ELSE known
+     /\ known' = IF (short \/ missing \/ liveGap) /\ ~histGap /\ futureHist THEN known \cup {"C03-future-dated-history-drops-live"} ELSE known
      /\ Judge((IF E.status # 200 THEN {"C13"} ELSE {})
               \cup (IF short /\ ~futureHist THEN {"C11", "C13"} ELSE {})
               \cup (IF \E j \in 1..Len(E.res) : E.res[j].ctx # E.ctx THEN {"C06"} ELSE {})
               \cup (IF E.route = "head" /\ \E j \in 1..Len(E.res) : E.res[j].topic # E.topic THEN {"C05", "C13"} ELSE {})
-              \cup (IF (missing \/ histGap) /\ ~futureHist THEN {"C03", "C13"} ELSE {})
+              \cup (IF histGap \/ ((missing \/ liveGap) /\ ~futureHist) THEN {"C03", "C13"} ELSE {})
+              \* (nothing of the history at or below the start position; what is appended while the stream is open is
+              \*  delivered whatever its id - a clock behind an imported id)
+              \cup (IF \E j \in 1..Len(E.res) : E.res[j].id <= E.last /\ E.res[j].id \notin appendedIds THEN {"C03", "C13"} ELSE {})
               \* (the first line of head --follow is the current head, which may be an imported frame with any id)
               \cup (IF ~futureHist /\ \E a, c \in (IF E.route = "head" THEN 2 ELSE 1)..Len(E.res) : a < c /\ E.res[a].id >= E.res[c].id
                     THEN {"C03", "C13"} ELSE {}))
